@@ -503,7 +503,7 @@ theorem c01_counterexample :
           ∃ ρ' : String → K, (∀ x, inScope d x → ρ' x = ρ x) ∧ linFeasible lm ρ' = true) :=
   boxEnforced_needed (ty := .bool) (k := (1 / 2 : K)) (x0 := 1) (by simp [inDomain]) (by norm_num) (by norm_num)
 
-/-- **Counterexample for the definedness hypothesis** (`FragModel.cons … .defined`): `c: 0 * (x / 0) ≤ 1` is
+/-- **Counterexample for the definedness hypothesis** (`FragModel.cons … .defined`): `c: 0 * (x + inf) ≤ 1` is
 undefined at every assignment (the source is infeasible), but `simplify` folds it to the tautology `0 ≤ 1`,
 which is dropped: the linear model accepts every assignment.  All structural hypotheses hold. -/
 theorem c01_defined_counterexample :
@@ -512,6 +512,19 @@ theorem c01_defined_counterexample :
       (∀ c ∈ m.constraints, c.isAssert = false ∧ FG true (inScope d) c.lhs ∧ FG true (inScope d) c.rhs) ∧
       (∀ ρ : String → K, ¬ srcFeasible m ρ = true) ∧ (∀ ρ : String → K, linFeasible lm ρ = true) :=
   defined_needed
+
+/-- **Finite literals do not replace the definedness hypothesis** (FINDING, real code HEAD 8a8f98f): in
+`c: 0 * (x / 0) ≤ 1` every literal is finite; since rooc 9f62afd `simplify` keeps the product, but
+`Exp::linearize` on a product with constant factor `0` returns `0` without visiting the other factor, so the
+division by zero is never reported: the row is `0 ≤ 1`, the linear model accepts every assignment, the source
+constraint has no value at any. -/
+theorem c01_defined_finite_counterexample :
+    ∃ (m : Model (Ext K)) (b : BoundsMap (Ext K)) (d : List (DomVar (Ext K))) (lm : LinModel (Ext K)),
+      linearizeWith m b d = .ok lm ∧ DomRel m d ∧ BoxEnforced b d ∧
+      (∀ c ∈ m.constraints, c.isAssert = false ∧ FG true (inScope d) c.lhs ∧ FG true (inScope d) c.rhs ∧
+        finiteLits c.lhs = true ∧ finiteLits c.rhs = true) ∧
+      (∀ ρ : String → K, ¬ srcFeasible m ρ = true) ∧ (∀ ρ : String → K, linFeasible lm ρ = true) :=
+  defined_needed_finite
 
 /-- a decidable sufficient condition for the definedness hypothesis: finite literals, non-zero literal divisors,
 non-empty `min`/`max`. -/
